@@ -23,7 +23,7 @@ def describe(tier):
         'bounds': 'part A: all partitions of N<=%d into <=4 parts x all permutations; part B: all partitions in the block window (first 40 per point in quick)' % n,
         'assumptions': ['chance coincidence of two random placements of >= 12 blocks <= 1/12! = 2.1e-9 per case (inside the property\'s own 1e-8)',
                         'DP17 part B uses level ratio 1.0 and singleton-heavy databases so that the bucket choice alone has probability < 1e-8 of repeating'],
-        'must_be_nonzero': ['permutations', 'sorted-tables', 'large-label-tables', 'array-cases', 'deep-array-cases', 'deep-blocks-compared'],
+        'must_be_nonzero': ['permutations', 'sorted-tables', 'large-label-tables', 'array-cases', 'deep-array-cases', 'deep-blocks-compared', 'scheme-copies-compared'],
     }
 
 
@@ -297,6 +297,26 @@ def run_b_case(r, seed, name, label, cfg, prof, deep=False):
         r.outcome('placement-repeats')
     else:
         r.outcome('placement-differs')
+    if deep and name != 'CGKO06.SSE1':
+        # two COPIES of one scheme object (deep copy; pickle) setting up the same database under the same key: copies must not replay
+        # each other's placement (that a scheme object can be copied at all is not demanded)
+        import copy as _copy, pickle as _pickle
+        try:
+            blank = L.SSEScheme(_copy.deepcopy(cfg1))
+            pairs_ = [('deep-copies', _copy.deepcopy(blank), _copy.deepcopy(blank)), ('pickled-copies', _pickle.loads(_pickle.dumps(blank)), _pickle.loads(_pickle.dumps(blank)))]
+        except Exception:
+            pairs_ = []
+            r.count('scheme-object-not-copyable (not demanded)')
+        for how, sa, sb in pairs_:
+            try:
+                pa = placement(name, sa, key1, sa.EDBSetup(key1, db), db)
+                pb = placement(name, sb, key1, sb.EDBSetup(key1, db), db)
+            except Exception as e:
+                r.v(PROPERTY, name, 'array-case-raises', 'copies:%s:%s' % (core.exc_site(e), type(e).__name__), case, 'setups by copied scheme objects succeed', core.exc_text(e))
+                continue
+            r.count('scheme-copies-compared')
+            if pa == pb:
+                r.v(PROPERTY, name, 'placement-repeats', 'two-' + how + '-of-one-scheme-object', case, 'block placement differs between the two copies', 'identical slots for every keyword')
     if deep:
         # no single block may sit at the same position in every one of DEEP_SETUPS setups: each block is placed uniformly among >= 12
         # candidate positions, so a block repeats its position 9 more times with probability <= 12^-9 = 1.9e-10 (<= 24 blocks per case:
